@@ -7,10 +7,11 @@
    with their sign.  The model functions (C05/Model.v: narrow, widen, write_raw_float_data ...)
    are the ones evaluated by the correspondence check against the implementation and against gcc.
    Print Assumptions lists the stdlib real-number axioms (through Flocq) — expected. *)
-From Coq Require Import ZArith List Bool Reals.
+From Coq Require Import String ZArith List Bool Reals.
 From Flocq Require Import Core.Core IEEE754.BinarySingleNaN IEEE754.Binary IEEE754.Bits.
-From Cffi Require Import C05.Model C05.Proofs.
+From Cffi Require Import C03.Mem C05.Model C05.Proofs C05.XModel C05.XProofs C05.IR C05.Gen C05.Interp C05.GenProofs.
 Import ListNotations.
+Open Scope list_scope.
 Open Scope Z_scope.
 
 (* (float)x is round-to-nearest-even of the real value of x, for EVERY finite binary64 x
@@ -167,6 +168,122 @@ Theorem C05_longdouble_copy_keeps_value_bytes : forall src pad,
 Proof. exact longdouble_copy_value_bytes. Qed.
 Print Assumptions C05_longdouble_copy_keeps_value_bytes.
 
+(* ---- the regenerated code.  C05/Gen.v holds, regenerated from src/c/_cffi_backend.c on every run, the statement
+   lists of the macros _write_raw_data / _write_raw_complex_data / _read_raw_data, the types they are
+   instantiated with in read/write_raw_{float,longdouble,complex}_data, the branch order and return codes of
+   check_bytes_for_float_compatible, and the statements of the float and complex branches of convert_from_object
+   and do_cast.  C05/Interp.v executes them (Some = every statement had a meaning).  Executed on a fresh object,
+   they ARE the Model.v functions all theorems above speak about: *)
+Theorem C05_gen_store_refines :
+  (forall k v, gen_store_float k v = Some (store_float k v)) /\
+  (forall k v, gen_store_complex k v = Some (store_complex k v)) /\
+  (forall k v, gen_cast_float k v = Some (cast_float k v)) /\
+  (forall k v, gen_cast_complex k v = Some (cast_complex k v)).
+Proof.
+  exact (conj gen_store_float_refines (conj gen_store_complex_refines
+          (conj gen_cast_float_refines gen_cast_complex_refines))).
+Qed.
+Print Assumptions C05_gen_store_refines.
+
+(* ... and at any offset of any memory, for every target (float, double, long double), every source (Python
+   object or primitive cdata: the long double -> long double special case, cdata_float, do_cast's
+   convert_to_object prologue) and any long double padding, they are the extended hand model C05/XModel.v,
+   which on Python-object sources and float/double targets is Model.v's result placed at that offset *)
+Theorem C05_gen_at_refines :
+  (forall t pad init off mem, gen_store_float_at t pad init off mem = Some (xstore_float_at t pad init off mem)) /\
+  (forall k init off mem, (off + fsize k <= length mem)%nat ->
+     gen_store_complex_at k init off mem = Some (xstore_complex_at k init off mem)) /\
+  (forall t pad ob off mem, gen_cast_float_at t pad ob off mem = Some (xcast_float_at t pad ob off mem)) /\
+  (forall k ob off mem, (off + fsize k <= length mem)%nat ->
+     gen_cast_complex_at k ob off mem = Some (xcast_complex_at k ob off mem)) /\
+  (forall k pad v off mem,
+     xstore_float_at (TK k) pad (XPy v) off mem = place (store_float k v) off mem /\
+     xstore_complex_at k (XPy v) off mem = place (store_complex k v) off mem /\
+     xcast_float_at (TK k) pad (XPy v) off mem = place (cast_float k v) off mem /\
+     xcast_complex_at k (XPy v) off mem = place (cast_complex k v) off mem).
+Proof.
+  exact (conj gen_store_float_at_ok (conj gen_store_complex_at_ok (conj gen_cast_float_at_ok
+          (conj gen_cast_complex_at_ok
+            (fun k pad v off mem => conj (xstore_float_at_model k pad v off mem)
+               (conj (xstore_complex_at_model k v off mem)
+                 (conj (xcast_float_at_model k pad v off mem) (xcast_complex_at_model k v off mem)))))))).
+Qed.
+Print Assumptions C05_gen_at_refines.
+
+(* the raw-data layer: the macros, instantiated with the types and in the order found in the source, are the
+   hand functions write_raw_float_data / read_raw_float_data / ..._complex_data / ..._longdouble_data of Model.v;
+   in particular the real part is copied to target + 0 and the imaginary part to target + sizeof(type)
+   (stated on the regenerated macro body itself), and check_bytes_for_float_compatible returns -1 / 0 / 1 as
+   Model.v's None / Some None / Some (Some ordinal) *)
+Theorem C05_gen_raw_data_refines :
+  (forall k src off mem,
+     gen_write_raw_float_data (fsize k) src off mem = Some (splice off (write_raw_float_data k src) mem)) /\
+  (forall v pad off mem,
+     gen_write_raw_longdouble_data v pad off mem = Some (splice off (write_raw_longdouble_data v pad) mem)) /\
+  (forall k re im off mem, (off + fsize k <= length mem)%nat ->
+     gen_write_raw_complex_data (2 * fsize k) (re, im) off mem
+     = Some (splice off (write_raw_float_data k re ++ write_raw_float_data k im) mem)) /\
+  (forall k target, gen_read_raw_float_data (fsize k) target = Some (read_raw_float_data k target)) /\
+  (forall target, gen_read_raw_longdouble_data target = Some (read_raw_longdouble_data target)) /\
+  (forall k target, gen_read_raw_complex_data (2 * fsize k) target = Some (read_raw_complex_data k target)) /\
+  (forall io, gen_check_bytes io = cb_code (x_check_bytes io)) /\
+  (wm_body write_raw_complex_data_macro
+     = [WDecl "r" SrcReal; WDecl "i" SrcImag; WCopy OffZero "r"; WCopy OffSizeof "i"; WReturn]
+   /\ wm_mult write_raw_complex_data_macro = 2%nat
+   /\ write_raw_complex_insts = [CFloat; CDouble] /\ write_raw_float_insts = [CFloat; CDouble]
+   /\ read_raw_float_insts = [CFloat; CDouble])%string.
+Proof.
+  exact (conj gen_write_raw_float_ok (conj gen_write_raw_longdouble_ok (conj gen_write_raw_complex_ok
+          (conj gen_read_raw_float_ok (conj gen_read_raw_longdouble_ok (conj gen_read_raw_complex_ok
+            (conj gen_check_bytes_ok complex_layout_fact))))))).
+Qed.
+Print Assumptions C05_gen_raw_data_refines.
+
+(* frame: a float store at byte offset off of a larger object (array item, struct field) keeps the length,
+   changes no byte outside [off, off + size), leaves the memory unchanged when it fails, and when it succeeds
+   the object holds exactly the bytes of the conversion (read back by read_raw_float_data as the stored float);
+   the complex store has its two components at off and off + sizeof(type) *)
+Theorem C05_store_frame :
+  (forall t pad init off mem,
+     length pad = 6%nat -> (off + xsize t <= length mem)%nat ->
+     let r := xstore_float_at t pad init off mem in
+     frame_ok off (xsize t) mem (snd r) /\
+     match xstore_float_bytes t pad init with
+     | Ok bs => fst r = Ok tt /\ length bs = xsize t /\ unit_at off (xsize t) (snd r) = bs
+     | Err e => fst r = Err e /\ snd r = mem
+     end) /\
+  (forall k init off mem,
+     (off + 2 * fsize k <= length mem)%nat ->
+     let r := xstore_complex_at k init off mem in
+     frame_ok off (2 * fsize k) mem (snd r) /\
+     match x_as_complex init with
+     | Ok (re, im) => fst r = Ok tt /\
+         unit_at off (fsize k) (snd r) = write_raw_float_data k re /\
+         unit_at (off + fsize k) (fsize k) (snd r) = write_raw_float_data k im
+     | Err e => fst r = Err e /\ snd r = mem
+     end) /\
+  (forall k pad d off mem,
+     0 <= d < 2 ^ 64 -> (off + fsize k <= length mem)%nat ->
+     let r := xstore_float_at (TK k) pad (XPy (PyFloat d)) off mem in
+     read_raw_float_data k (unit_at off (fsize k) (snd r))
+     = match k with F32 => widen_bits (narrow_bits d) | F64 => d end).
+Proof. exact (conj xstore_float_frame (conj xstore_complex_frame xstore_float_read_back)). Qed.
+Print Assumptions C05_store_frame.
+
+(* (long double)d is exact for every finite binary64 d (x87 double-extended = Flocq precision 64, emax 16384),
+   keeps zeros and infinities with their sign, NaN stays NaN *)
+Theorem C05_double_to_longdouble_exact :
+  (forall x : binary64,
+   Binary.is_finite 53 1024 x = true ->
+   Binary.B2R 64 16384 (widen_ld x) = Binary.B2R 53 1024 x /\
+   Binary.is_finite 64 16384 (widen_ld x) = true /\
+   Binary.Bsign 64 16384 (widen_ld x) = Binary.Bsign 53 1024 x) /\
+  ((forall s, widen_ld (B754_zero 53 1024 s) = B754_zero 64 16384 s) /\
+   (forall s, widen_ld (B754_infinity 53 1024 s) = B754_infinity 64 16384 s) /\
+   (forall x, Binary.is_nan 64 16384 (widen_ld x) = Binary.is_nan 53 1024 x)).
+Proof. exact (conj widen_ld_finite_correct widen_ld_classes). Qed.
+Print Assumptions C05_double_to_longdouble_exact.
+
 (* ---- non-vacuity / concrete values (struct.pack('<d', x) patterns in, struct.pack('<f') patterns out) *)
 Example C05_examples :
   map narrow_bits
@@ -207,3 +324,27 @@ Example C05_example_longdouble :
   firstn 10 (longdouble_copy [0;0;0;0;0;0;0;128;255;63; 1;2;3;4;5;6] [9;9;9;9;9;9])
   = [0;0;0;0;0;0;0;128;255;63].
 Proof. vm_compute. reflexivity. Qed.
+
+(* cdata sources and the long double target (x87 patterns: 1.0L = 0x3fff8000000000000000) *)
+Example C05_example_xpaths :
+  xobserve (XF TLD) Cast (XCData (CDFloat F32 0x3f800000)) = Ok [0x3fff8000000000000000] /\
+  xobserve (XF TLD) Store (XPy (PyFloat 0xc00921fb54442d18)) = Ok [0xc000c90fdaa22168c000] /\
+  xobserve (XF (TK F32)) Cast (XCData (CDWChar 65)) = Ok [0x42820000] /\
+  xobserve (XF (TK F32)) Store (XCData (CDInt 65)) = Err TypeError /\
+  xobserve (XF (TK F64)) Cast (XCData CDOther) = Err TypeError /\
+  xobserve (XC F32) Cast (XCData (CDComplex F64 0x3ff0000000000000 0x4000000000000000)) = Ok [0x3f800000; 0x40000000] /\
+  map ld_to_double [0x3fff8000000000000401; 0x3fff8000000000000400; 0x3fff8000000000000c00]
+    = [0x3ff0000000000001; 0x3ff0000000000000; 0x3ff0000000000002].
+Proof. vm_compute. repeat split. Qed.
+
+(* the proofs above depend on what is in Gen.v: with `double lvalue` instead of `long double lvalue` in the long
+   double -> long double block (seeded defect C05) the executed program stores other bytes for 1 + 2^-63 *)
+Example C05_gen_lvalue_type_matters :
+  let src := XCData (CDLongDouble [1;0;0;0;0;0;0;128;255;63; 0;0;0;0;0;0]) in
+  let bad := map (fun gs => match gs with (g, SLongDoubleCopy _) => (g, SLongDoubleCopy CDouble) | _ => gs end)
+                 store_float_prog in
+  exec_f (XF TLD) [0;0;0;0;0;0] src 0 bad (store_state src) (repeat 0 16)
+    = Some (Ok tt, [0;0;0;0;0;0;0;128;255;63; 0;0;0;0;0;0]) /\
+  gen_store_float_at TLD [0;0;0;0;0;0] src 0 (repeat 0 16)
+    = Some (Ok tt, [1;0;0;0;0;0;0;128;255;63; 0;0;0;0;0;0]).
+Proof. vm_compute. split; reflexivity. Qed.
